@@ -51,6 +51,8 @@ def worker_main(argv):
         fn = c["fn"]
         args = c.get("args", ())
 
+        core.QUERY_TIMEOUT_MS = c.get("query_timeout_ms", 20000)
+
         def run(ctx, fn=fn, args=args):
             harness.reset_yowsup()
             return fn(ctx, *args)
